@@ -43,6 +43,21 @@ def _fix(tree):
     ast.fix_missing_locations(tree)
 
 
+def renumber(fn):
+    """Textual (depth-first) order index on every node: line numbers are useless after inlining."""
+    k = 0
+    stack = [fn]
+    while stack:
+        n = stack.pop()
+        n._ord = k
+        k += 1
+        stack.extend(reversed(list(ast.iter_child_nodes(n))))
+
+
+def _last_ord(node):
+    return max(getattr(x, "_ord", -1) for x in ast.walk(node))
+
+
 def is_pure(e, depth=0):
     if depth > 8:
         return False
@@ -184,6 +199,14 @@ class Subst(ast.NodeTransformer):
 
     visit_AsyncFunctionDef = visit_FunctionDef
     visit_Lambda = visit_FunctionDef
+
+
+def _loadify(t):
+    c = clone(t)
+    for n in ast.walk(c):
+        if hasattr(n, "ctx"):
+            n.ctx = ast.Load()
+    return c
 
 
 def _stmts_subst(stmts, mapping, rename=None):
@@ -445,13 +468,11 @@ class ModuleNormaliser:
             call, mode = st.value, "assign"
         elif isinstance(st, ast.Return) and isinstance(st.value, ast.Call):
             call, mode = st.value, "return"
-        if call is None:
-            return None
-        tgt = self._helper_target(call, q, cls)
+        tgt = self._helper_target(call, q, cls) if call is not None else None
         if tgt is None:
-            return None
+            return self._hoist_nested_call(st, q, cls)
         hq, recv = tgt
-        if hq == q or hq.startswith(q + ".") and False:
+        if hq == q:
             return None
         helper = self.defs[hq][0]
         if any(isinstance(x, ast.Call) and self._helper_target(x, hq, self.defs[hq][2]) and self._helper_target(x, hq, self.defs[hq][2])[0] == hq for x in ast.walk(helper)):
@@ -472,6 +493,8 @@ class ModuleNormaliser:
             if isinstance(v, tuple):
                 arg = v[1]
                 same_target = mode == "assign" and isinstance(arg, ast.Name) and isinstance(st.targets[0], ast.Name) and st.targets[0].id == arg.id
+                if not same_target and isinstance(arg, ast.Name) and self._dead_after(self.defs[q][0], st, arg.id):
+                    same_target = True      # the caller never reads its variable again: re-binding it is unobservable
                 if same_target:
                     rename[p] = arg.id
                 else:
@@ -509,6 +532,87 @@ class ModuleNormaliser:
             ast.fix_missing_locations(s)
         self.log.append(f"{q}: call of new helper {hq} inlined ({mode})")
         return res
+
+    def _hoist_nested_call(self, st, q, cls):
+        """`x = f(a, helper(b))` with a multi-statement new helper: evaluate the helper first into a fresh local
+        (allowed when everything else in the statement is pure, so no evaluation order is observable), then inline
+        that assignment; the fresh local is propagated back later when it is single-assigned."""
+        if not isinstance(st, (ast.Assign, ast.Return, ast.Expr, ast.AugAssign)) or st.value is None:
+            return None
+        cands = []
+        for c in ast.walk(st.value):
+            if isinstance(c, (ast.Lambda, ast.ListComp, ast.SetComp, ast.DictComp, ast.GeneratorExp, ast.IfExp, ast.BoolOp)):
+                # conditional / repeated evaluation: do not hoist out of these
+                inner = {id(x) for x in ast.walk(c)} - {id(c)}
+                cands = [x for x in cands if id(x) not in inner]
+                continue
+            if isinstance(c, ast.Call) and c is not st.value and self._helper_target(c, q, cls):
+                cands.append(c)
+        blocked = set()
+        for c in ast.walk(st.value):
+            if isinstance(c, (ast.Lambda, ast.ListComp, ast.SetComp, ast.DictComp, ast.GeneratorExp, ast.IfExp, ast.BoolOp)):
+                blocked |= {id(x) for x in ast.walk(c)} - {id(c)}
+        cands = [c for c in cands if id(c) not in blocked]
+        if len(cands) != 1:
+            return None
+        call = cands[0]
+        hq, recv = self._helper_target(call, q, cls)
+        body = [x for x in self.defs[hq][0].body if not _is_doc(x)]
+        if len(body) == 1 and isinstance(body[0], ast.Return):
+            return None       # expression-level inlining handles it
+        tmp = f"r__h{next(self.counter)}"
+        # purity of the remainder of the statement
+        probe = clone(st)
+        target_txt = ast.dump(call)
+
+        class R(ast.NodeTransformer):
+            done = False
+
+            def visit_Call(self, n):
+                if not self.done and ast.dump(n) == target_txt:
+                    self.done = True
+                    return ast.Name(id=tmp, ctx=ast.Load())
+                self.generic_visit(n)
+                return n
+        r = R()
+        probe = r.visit(probe)
+        if not r.done or not is_pure(probe.value):
+            return None
+        if isinstance(st, ast.Assign) and not all(is_pure(_loadify(t)) for t in st.targets):
+            return None
+        first = ast.Assign(targets=[ast.Name(id=tmp, ctx=ast.Store())], value=clone(call))
+        ast.copy_location(first, st)
+        ast.fix_missing_locations(first)
+        first._anchor = st
+        inl = self._try_inline_stmt(first, q, cls)
+        if inl is None:
+            return None
+        ast.copy_location(probe, st)
+        ast.fix_missing_locations(probe)
+        probe._parent = getattr(st, "_parent", None)
+        return inl + [probe]
+
+    @staticmethod
+    def _dead_after(fn, st, name):
+        """True if `name` is not read in fn after statement st before being re-bound (conservative)."""
+        anchor = getattr(st, "_anchor", st)
+        renumber(fn)
+        if not hasattr(anchor, "_ord"):
+            return False
+        end = _last_ord(anchor)
+        for n in ast.walk(fn):
+            if isinstance(n, ast.Name) and n.id == name and isinstance(n.ctx, ast.Load) and n._ord > end:
+                return False
+            if isinstance(n, (ast.FunctionDef, ast.Lambda)) and n is not fn and any(isinstance(x, ast.Name) and x.id == name for x in ast.walk(n)):
+                return False
+        # inside a loop the statements before st run again: the loop must re-bind the name itself
+        inside = [p for p in ast.walk(fn) if isinstance(p, (ast.For, ast.While)) and any(x is anchor for x in ast.walk(p))]
+        for p in inside:
+            if isinstance(p, ast.While):
+                return False
+            if name not in {x.id for x in ast.walk(p.target) if isinstance(x, ast.Name)}:
+                return False
+        return True
 
     def _try_inline_expr(self, st, q, cls):
         """Expression-level inlining of helpers whose body is `return <expr>` or `if c: return a` + `return b`."""
@@ -588,11 +692,13 @@ class ModuleNormaliser:
         for _ in range(6):
             progress = False
             binds = bound_names(fn)
+            renumber(fn)
             new_locals = [n for n, k in binds if k == "assign" and n not in known]
             if not new_locals:
                 break
             # split parallel assignments that bind a new local
             self._split_parallel(fn, set(new_locals))
+            renumber(fn)
             assigns = {}
             for node in ast.walk(fn):
                 if isinstance(node, (ast.FunctionDef, ast.AsyncFunctionDef)) and node is not fn:
@@ -624,14 +730,14 @@ class ModuleNormaliser:
                 later = False
                 for name in fv:
                     for b in assigns.get(name, []):
-                        if getattr(b, "lineno", 0) > st.lineno or (getattr(b, "lineno", 0) == st.lineno and b is not st):
+                        if b is not st and b._ord > st._ord:
                             later = True
                 if later:
                     continue
                 # the definition must dominate its uses: require it to be at the top level of the function or
                 # every use to be inside the same block after it
                 uses = [n for n in ast.walk(fn) if isinstance(n, ast.Name) and n.id == v and isinstance(n.ctx, ast.Load)]
-                if any(u.lineno < st.lineno for u in uses):
+                if any(u._ord < st._ord for u in uses):
                     continue
                 block = self._block_of(fn, st)
                 if block is None:
